@@ -95,7 +95,7 @@ CHECKS = {
     "C13": (
         "fault_enumeration",
         "exhaustive crash-point enumeration with an effect-counting interposer (kill before every external effect; torn writes and crash-during-recovery pairs in the thorough tier)",
-        "For 6 scenarios (create with ZID-less notes; reindex with stamp + new note + new pages incl. a sub-directory; reindex of pages sharing a tag; create -f with a broken page; reindex whose changes need no write-back; reindex of a page whose notes carry properties and single-use tags, so that removing the old page issues several SQL statements) the real command runs in a child whose file writes, renames, unlinks and SQL commits are counted; for every k the child is killed with os._exit immediately before effect k, the same command is re-run to completion, and the recovery invariant is checked: clean exit, raw index == recompiled files, every note has a ZID, no ZID on two notes, user text multiset unchanged, and files/index/meta equal to the uninterrupted run up to renaming of fresh ZIDs. Thorough adds 0% and 50% torn variants of every file write and all ordered pairs of crash points (crash again during recovery).",
+        "For 8 scenarios (create with ZID-less notes; reindex with stamp + new note + new pages incl. a sub-directory; reindex of pages sharing a tag; create -f with a broken page; reindex whose changes need no write-back; reindex of a page whose notes carry properties and single-use tags, so that removing the old page issues several SQL statements; reindex after a page was renamed and a note cut and pasted with its ZID into another page; reindex after a whitelisted broken page was repaired) the real command runs in a child whose file writes, renames, unlinks and SQL commits are counted; for every k the child is killed with os._exit immediately before effect k, the same command is re-run to completion, and the recovery invariant is checked: clean exit, raw index == recompiled files, every note has a ZID, no ZID on two notes, user text multiset unchanged, and files/index/meta equal to the uninterrupted run up to renaming of fresh ZIDs. Thorough adds 0% and 50% torn variants of every file write and all ordered pairs of crash points (crash again during recovery).",
         "SQLite commit atomic (journal trusted); no cross-file write reordering or power loss; mkdir is not a crash point.",
         "§4 C13",
     ),
@@ -103,7 +103,7 @@ CHECKS = {
         "exploration",
         "exhaustive small-scope enumeration of (rename pair x subsets of confusable link texts) through the real CLI, byte-compared with an independent link-token rewrite",
         "9 renames (plain, B extends A, A extends B, in / into a sub-directory, same-named files in two directories, absolute paths, base names ending in o / z) x every subset of size <= 2 (quick) / <= 3 (thorough) of 13 link texts confusable with the page name (+ the full set), written into the renamed page, another page, a deep page, a .zot template, a .zoq page, a non-zorg file, and linking files without a final newline, with two final newlines, and with form feed / CRLF / U+2028 separators; the real `zorg file rename` runs in a fresh process; file set and every byte must equal the independent rewrite; compiled link sets must differ by exactly the substitution.",
-        "Destination directory exists; closed link texts only.",
+        "Destination directory exists and the destination name is free (renaming onto an existing page cannot satisfy the statement either way); no directory is itself named *.zo; closed link texts only.",
         "§4 C14",
     ),
     "C15": (
